@@ -603,6 +603,16 @@ def replay_mem(rep):
     return [v["message"] for v in st.violations]
 
 
+def ref_panics(st, ref_lines, seed, tier):
+    """Every call of the menu is one the library must answer with a value or an error: a panic when the call runs alone, in its own
+    fresh process, is a violation by itself (and not a reference to compare other runs with)."""
+    for ln in ref_lines.splitlines():
+        e = json.loads(ln)
+        if e.get("digest") == "panic":
+            st.add_violation(f"[threads/reference] call {e['call']} panicked when run alone in a fresh process",
+                             {"kind": "threads", "seed": seed, "tier": tier, "name": "reference", "event": e, "history": None})
+
+
 def race_stage(prop, tier, seed, runs=2, race_threads=8):
     """Only the free-running part of the thread driver: N threads start together in a fresh process, first-use ONE never-used
     parameter object, run the whole call menu each in its own order and then the same verifying calls at the same instant; TLC
@@ -620,6 +630,7 @@ def race_stage(prop, tier, seed, runs=2, race_threads=8):
         return open(refp).read()
     with ThreadPoolExecutor(max_workers=8) as ex:
         ref_lines = "".join(ex.map(ref, range(20)))
+    ref_panics(st, ref_lines, seed, tier)
     tcfg = "SPECIFICATION Spec\nCONSTRAINT Progress\nPOSTCONDITION Accepted\nCHECK_DEADLOCK FALSE\n"
     for i in range(runs if q else runs * 5):
         rp = os.path.join(wd, f"race{i}.ndjson")
@@ -701,6 +712,7 @@ def threads_stage(prop, tier, seed, races=6, race_threads=8):
         return open(refp).read()
     with ThreadPoolExecutor(max_workers=8) as ex:
         ref_lines = "".join(ex.map(ref, range(20)))
+    ref_panics(st, ref_lines, seed, tier)
     files = []
     hp_out = os.path.join(wd, "hist_trace.ndjson")
     lp = os.path.join(wd, "long.ndjson")
